@@ -205,10 +205,14 @@ Proof. exact future_refused. Qed.
 Print Assumptions C13_future_refused.
 
 (* The executable monitor (Run/C13.v: the property as a boolean over observations only - the sums,
-   units = balance, sorted checkpoints, exact and immutable past with its own ghost history, refused
-   future, "an Advance of any length or a failing call changes no getter", "a delegatee changes only
-   by the account's own successful delegate call") accepts every run of the model, and the model
-   agrees with itself; [wf_input] only asks that the accounts named by the calls are observed. *)
+   units = balance, sorted checkpoint lists, exact past against its own ghost history and against the
+   checkpoint lists shown, "no call changes what a checkpoint list answers for a ledger < now",
+   refused future, "an Advance of any length or a failing call changes no getter" (from the empty
+   observation of the fresh contract on), "a delegatee changes only by the account's own successful
+   delegate call", observation shape = header, clock = successful Advances, rows for now-1 and now)
+   accepts every run of the model, and the model agrees with itself.  [wf_header]: u32 start ledger and
+   the intended burn wiring (h_db = false); [wf_input]: the accounts named by the calls are observed;
+   [observe_model] asks, besides the given ledgers, for now-1 and now after every call. *)
 Theorem C13_monitor_accepts_model : forall (h : header) (ins : list input),
   wf_header h = true -> forallb (wf_input (h_n h)) ins = true ->
   check (observe_model h ins) = (0%N, 0%N, 0%N).
@@ -219,7 +223,7 @@ Print Assumptions C13_monitor_accepts_model.
 (* Examples                                                             *)
 (* ------------------------------------------------------------------ *)
 Definition ex_h : header :=
-  {| h_kind := KFung; h_n := 3; h_ids := 0; h_start := 2; h_maxttl := 100; h_owner := 0%N |}.
+  {| h_kind := KFung; h_n := 3; h_ids := 0; h_start := 2; h_maxttl := 100; h_owner := 0%N; h_db := false |}.
 Definition ex_cs : list (list addr * call) :=
   [([], Mint 0%N 100); ([0%N], Delegate 0%N 1%N); ([], Advance 1);
    ([0%N], Transfer 0%N 2%N 30); ([2%N], Delegate 2%N 2%N); ([0%N], Transfer 0%N 0%N 70); ([], Advance 2);
@@ -273,8 +277,8 @@ Proof. vm_compute. repeat split. Qed.
 
 (* ... also on the NFT wrapper and on the example contract (owner-gated mint) *)
 Example C13_example_monitor_nft_and_example :
-  let hn := {| h_kind := KNft; h_n := 3; h_ids := 4; h_start := 0; h_maxttl := 100; h_owner := 0%N |} in
-  let hx := {| h_kind := KExample; h_n := 3; h_ids := 0; h_start := 1; h_maxttl := 100; h_owner := 0%N |} in
+  let hn := {| h_kind := KNft; h_n := 3; h_ids := 4; h_start := 0; h_maxttl := 100; h_owner := 0%N; h_db := false |} in
+  let hx := {| h_kind := KExample; h_n := 3; h_ids := 0; h_start := 1; h_maxttl := 100; h_owner := 0%N; h_db := false |} in
   let qs := [0; 1; 2; 3; 4] in
   let insn := [([], Mint 0%N 1, qs); ([], SeqMint 1%N, qs); ([1%N], Delegate 1%N 2%N, qs); ([], Advance 1, qs);
                ([0%N], Transfer 0%N 1%N 1, qs); ([0%N], Approve 1%N 0%N 1 50, qs); ([1%N], Approve 1%N 0%N 1 50, qs);
@@ -297,94 +301,152 @@ Example C13_example_search :
   = [Ok 0; Ok 100; Ok 100; Ok 101; Ok 101; Ok 107; Ok 108; Ok 108; Ok 108].
 Proof. vm_compute. reflexivity. Qed.
 
+(* ---- the library footgun: default FungibleBurnable wiring (no shipped example does this) ---- *)
+(* `impl FungibleBurnable for T {}` on a FungibleVotes token keeps Base::burn / Base::burn_from: [step_db] is the
+   model of that token (validated against such a contract by the harness, diff only).  There units = balance FAILS:
+   the theorems above are about tokens whose burn is wired through FungibleVotes::burn. *)
+Example C13_default_burn_wiring_breaks_units_eq_balance :
+  let s := run ex_h (init ex_h) ex_cs in
+  let s1 := fst (step_db ex_h s [0%N] (Burn 0%N 30)) in
+  snd (step_db ex_h s [0%N] (Burn 0%N 30)) = Ok 0 /\
+  balance_of s1 0%N = 40 /\ units_of (s_v s1) 0%N = 70 /\
+  get_votes (s_v s1) 2%N = Ok 100 /\ get_total_supply (s_v s1) = Ok 100 /\ s_supply s1 = 70 /\
+  (* the correctly wired token *)
+  balance_of (fst (step ex_h s [0%N] (Burn 0%N 30))) 0%N = 40 /\
+  units_of (s_v (fst (step ex_h s [0%N] (Burn 0%N 30)))) 0%N = 40.
+Proof. vm_compute. repeat split. Qed.
+
 (* ---- the monitor is not trivially true: hand-made bad traces ---- *)
+(* every trace below is well-formed (2 accounts, rows for now-1 and now, consistent clock) except for the one
+   defect named; rf = a refused row, Z0 = an untouched account *)
 Definition bad_h : header :=
-  {| h_kind := KFung; h_n := 2; h_ids := 0; h_start := 0; h_maxttl := 100; h_owner := 0%N |}.
+  {| h_kind := KFung; h_n := 2; h_ids := 0; h_start := 0; h_maxttl := 100; h_owner := 0%N; h_db := false |}.
+Definition rf : list (option Z) := [None; None; None].
+Definition Z0 : acct_obs := mkA 0 0 None 0 [].
+Definition row (q a b t : Z) : Z * list (option Z) := (q, [Some a; Some b; Some t]).
+Definition mon_index (t : trace) : N := snd (fst (check t)).
+(* a correct beginning: mint 5 to account 0 at ledger 0 *)
+Definition good_mint : item :=
+  ([], Mint 0%N 5, Ok 0, mkO 0 [mkA 5 5 None 0 []; Z0] 5 5 [(0, 5)] [] [(0, rf)]).
+
+Example C13_monitor_accepts_the_good_prefix :
+  mon_index (bad_h, [good_mint;
+     ([], Advance 10, Ok 0, mkO 10 [mkA 5 5 None 0 []; Z0] 5 5 [(0, 5)] [] [row 9 0 0 5; (10, rf)])]) = 0%N.
+Proof. vm_compute. reflexivity. Qed.
 
 (* account 0 holds 5 units and delegates to 1, but account 1 shows no voting power *)
 Example C13_monitor_rejects_lost_votes :
-  snd (fst (check (bad_h,
-    [([0%N], Delegate 0%N 1%N, Ok 0,
-      mkO 0 [mkA 5 5 (Some 1%N) 0 []; mkA 0 0 None 0 []] 5 5 [(0, 5)] [] [])]))) = 1%N.
+  mon_index (bad_h, [good_mint;
+     ([0%N], Delegate 0%N 1%N, Ok 0, mkO 0 [mkA 5 5 (Some 1%N) 0 []; Z0] 5 5 [(0, 5)] [] [(0, rf)])]) = 2%N.
 Proof. vm_compute. reflexivity. Qed.
 
 (* voting units differ from the token balance *)
 Example C13_monitor_rejects_units_ne_balance :
-  snd (fst (check (bad_h,
-    [([], Mint 0%N 5, Ok 0,
-      mkO 0 [mkA 5 4 None 0 []; mkA 0 0 None 0 []] 5 4 [(0, 4)] [] [])]))) = 1%N.
-Proof. vm_compute. reflexivity. Qed.
-
-(* an answer about the past (ledger 0) changes later: 5 at ledger 1, 7 at ledger 2 *)
-Example C13_monitor_rejects_rewritten_past :
-  snd (fst (check (bad_h,
-    [([], Mint 0%N 5, Ok 0,
-      mkO 0 [mkA 5 5 None 0 []; mkA 0 0 None 0 []] 5 5 [(0, 5)] [] [(0, [None; None; None])]);
-     ([], Advance 1, Ok 0,
-      mkO 1 [mkA 5 5 None 0 []; mkA 0 0 None 0 []] 5 5 [(0, 5)] [] [(0, [Some 0; Some 0; Some 5])]);
-     ([], Advance 1, Ok 0,
-      mkO 2 [mkA 5 5 None 0 []; mkA 0 0 None 0 []] 5 5 [(0, 5)] [] [(0, [Some 0; Some 0; Some 7]); (1, [Some 0; Some 0; Some 5])])
-    ]))) = 3%N.
-Proof. vm_compute. reflexivity. Qed.
-
-(* a past ledger answered with the value of a LATER ledger (same-ledger coalescing went wrong) *)
-Example C13_monitor_rejects_wrong_ledger :
-  snd (fst (check (bad_h,
-    [([], Mint 0%N 5, Ok 0,
-      mkO 0 [mkA 5 5 None 0 []; mkA 0 0 None 0 []] 5 5 [(0, 5)] [] []);
-     ([], Advance 1, Ok 0,
-      mkO 1 [mkA 5 5 None 0 []; mkA 0 0 None 0 []] 5 5 [(0, 5)] [] []);
-     ([], Mint 0%N 3, Ok 0,
-      mkO 1 [mkA 8 8 None 0 []; mkA 0 0 None 0 []] 8 8 [(0, 5); (1, 8)] [] [(0, [Some 0; Some 0; Some 5])]);
-     ([], Advance 1, Ok 0,
-      mkO 2 [mkA 8 8 None 0 []; mkA 0 0 None 0 []] 8 8 [(0, 5); (1, 8)] [] [(0, [Some 0; Some 0; Some 8]); (1, [Some 0; Some 0; Some 8])])
-    ]))) = 4%N.
-Proof. vm_compute. reflexivity. Qed.
-
-(* a query about the current ledger is answered instead of refused *)
-Example C13_monitor_rejects_answered_future :
-  snd (fst (check (bad_h,
-    [([], Mint 0%N 5, Ok 0,
-      mkO 3 [mkA 5 5 None 0 []; mkA 0 0 None 0 []] 5 5 [(3, 5)] [] [(3, [Some 0; Some 0; Some 5])])]))) = 1%N.
-Proof. vm_compute. reflexivity. Qed.
-
-(* two checkpoints for the same ledger (no coalescing) *)
-Example C13_monitor_rejects_duplicate_ledger :
-  snd (fst (check (bad_h,
-    [([], Mint 0%N 5, Ok 0,
-      mkO 3 [mkA 5 5 None 0 []; mkA 0 0 None 0 []] 5 5 [(3, 2); (3, 5)] [] [])]))) = 1%N.
+  mon_index (bad_h,
+    [([], Mint 0%N 5, Ok 0, mkO 0 [mkA 5 4 None 0 []; Z0] 5 4 [(0, 4)] [] [(0, rf)])]) = 1%N.
 Proof. vm_compute. reflexivity. Qed.
 
 (* the vote supply is not the sum of the units *)
 Example C13_monitor_rejects_supply :
-  snd (fst (check (bad_h,
-    [([], Mint 0%N 5, Ok 0,
-      mkO 3 [mkA 5 5 None 0 []; mkA 0 0 None 0 []] 5 6 [(3, 6)] [] [])]))) = 1%N.
+  mon_index (bad_h,
+    [([], Mint 0%N 5, Ok 0, mkO 0 [mkA 5 5 None 0 []; Z0] 5 6 [(0, 6)] [] [(0, rf)])]) = 1%N.
 Proof. vm_compute. reflexivity. Qed.
 
-(* state lapses silently while 600000 ledgers pass (balance, units and the supply checkpoint all read 0
-   again - mutually consistent, and no past ledger is queried): only "nothing changes without a call" fails *)
+(* an answer about the past (ledger 0) changes later: 5 at ledger 1, 7 at ledger 2 *)
+Example C13_monitor_rejects_rewritten_past :
+  mon_index (bad_h, [good_mint;
+     ([], Advance 1, Ok 0, mkO 1 [mkA 5 5 None 0 []; Z0] 5 5 [(0, 5)] [] [row 0 0 0 5; (1, rf)]);
+     ([], Advance 1, Ok 0, mkO 2 [mkA 5 5 None 0 []; Z0] 5 5 [(0, 5)] [] [row 0 0 0 7; row 1 0 0 5; (2, rf)])]) = 3%N.
+Proof. vm_compute. reflexivity. Qed.
+
+(* a past ledger answered with the value of a LATER ledger *)
+Example C13_monitor_rejects_wrong_ledger :
+  mon_index (bad_h, [good_mint;
+     ([], Advance 1, Ok 0, mkO 1 [mkA 5 5 None 0 []; Z0] 5 5 [(0, 5)] [] [row 0 0 0 5; (1, rf)]);
+     ([], Mint 0%N 3, Ok 0, mkO 1 [mkA 8 8 None 0 []; Z0] 8 8 [(0, 5); (1, 8)] [] [row 0 0 0 5; (1, rf)]);
+     ([], Advance 1, Ok 0, mkO 2 [mkA 8 8 None 0 []; Z0] 8 8 [(0, 5); (1, 8)] [] [row 0 0 0 8; row 1 0 0 8; (2, rf)])]) = 4%N.
+Proof. vm_compute. reflexivity. Qed.
+
+(* a query about the current ledger is answered instead of refused *)
+Example C13_monitor_rejects_answered_future :
+  mon_index (bad_h,
+    [([], Mint 0%N 5, Ok 0, mkO 0 [mkA 5 5 None 0 []; Z0] 5 5 [(0, 5)] [] [row 0 0 0 5])]) = 1%N.
+Proof. vm_compute. reflexivity. Qed.
+
+(* two checkpoints for the same ledger (no coalescing) *)
+Example C13_monitor_rejects_duplicate_ledger :
+  mon_index (bad_h,
+    [([], Mint 0%N 5, Ok 0, mkO 0 [mkA 5 5 None 0 []; Z0] 5 5 [(0, 2); (0, 5)] [] [(0, rf)])]) = 1%N.
+Proof. vm_compute. reflexivity. Qed.
+
+(* state lapses silently while 600000 ledgers pass: balance, units and the supply checkpoint all read 0 again *)
 Example C13_monitor_rejects_silent_lapse :
-  snd (fst (check (bad_h,
-    [([], Mint 0%N 5, Ok 0,
-      mkO 0 [mkA 5 5 None 0 []; mkA 0 0 None 0 []] 5 5 [(0, 5)] [] []);
-     ([], Advance 600000, Ok 0,
-      mkO 600000 [mkA 0 0 None 0 []; mkA 0 0 None 0 []] 0 0 [] [] [])]))) = 2%N.
+  mon_index (bad_h, [good_mint;
+     ([], Advance 600000, Ok 0, mkO 600000 [Z0; Z0] 0 0 [] [] [row 599999 0 0 0; (600000, rf)])]) = 2%N.
 Proof. vm_compute. reflexivity. Qed.
 
-(* ... and a failing call must leave no trace either *)
+(* a failing call must leave no trace *)
 Example C13_monitor_rejects_trace_of_failed_call :
-  snd (fst (check (bad_h,
-    [([], Mint 0%N 5, Ok 0,
-      mkO 0 [mkA 5 5 None 0 []; mkA 0 0 None 0 []] 5 5 [(0, 5)] [] []);
-     ([], Delegate 0%N 1%N, Fail,
-      mkO 0 [mkA 5 5 (Some 1%N) 0 []; mkA 0 0 None 5 [(0, 5)]] 5 5 [(0, 5)] [] [])]))) = 2%N.
+  mon_index (bad_h, [good_mint;
+     ([], Delegate 0%N 1%N, Fail, mkO 0 [mkA 5 5 (Some 1%N) 0 []; mkA 0 0 None 5 [(0, 5)]] 5 5 [(0, 5)] [] [(0, rf)])]) = 2%N.
 Proof. vm_compute. reflexivity. Qed.
 
-(* a delegatee appears although the account never called delegate (here it even keeps
-   "votes = delegated units" true) *)
-Example C13_monitor_rejects_spontaneous_delegation :
-  snd (fst (check (bad_h,
-    [([], Mint 0%N 5, Ok 0,
-      mkO 0 [mkA 5 5 (Some 1%N) 0 []; mkA 0 0 None 5 [(0, 5)]] 5 5 [(0, 5)] [] [])]))) = 1%N.
+(* ... also when it is the very first call of the trace (the fresh contract is the empty observation) *)
+Example C13_monitor_rejects_trace_of_failed_first_call :
+  mon_index (bad_h,
+    [([], Mint 0%N 5, Fail, mkO 0 [mkA 5 5 None 0 []; Z0] 5 5 [(0, 5)] [] [(0, rf)])]) = 1%N.
 Proof. vm_compute. reflexivity. Qed.
+Example C13_monitor_rejects_state_out_of_a_first_advance :
+  mon_index (bad_h,
+    [([], Advance 3, Ok 0, mkO 3 [mkA 5 5 None 0 []; Z0] 5 5 [(3, 5)] [] [row 2 0 0 0; (3, rf)])]) = 1%N.
+Proof. vm_compute. reflexivity. Qed.
+
+(* a delegatee appears although the account never called delegate (votes = delegated units stays true) *)
+Example C13_monitor_rejects_spontaneous_delegation :
+  mon_index (bad_h,
+    [([], Mint 0%N 5, Ok 0, mkO 0 [mkA 5 5 (Some 1%N) 0 []; mkA 0 0 None 5 [(0, 5)]] 5 5 [(0, 5)] [] [(0, rf)])]) = 1%N.
+Proof. vm_compute. reflexivity. Qed.
+
+(* an OLD checkpoint is rewritten by a later call ((10,8) becomes (10,6): the answer for ledgers 10..19 changes)
+   while only now-1 and now are queried: caught by the comparison of the checkpoint lists themselves *)
+Example C13_monitor_rejects_rewritten_old_checkpoint :
+  mon_index (bad_h, [good_mint;
+     ([], Advance 10, Ok 0, mkO 10 [mkA 5 5 None 0 []; Z0] 5 5 [(0, 5)] [] [row 9 0 0 5; (10, rf)]);
+     ([], Mint 0%N 3, Ok 0, mkO 10 [mkA 8 8 None 0 []; Z0] 8 8 [(0, 5); (10, 8)] [] [row 9 0 0 5; (10, rf)]);
+     ([], Advance 10, Ok 0, mkO 20 [mkA 8 8 None 0 []; Z0] 8 8 [(0, 5); (10, 8)] [] [row 19 0 0 8; (20, rf)]);
+     ([], Mint 0%N 1, Ok 0, mkO 20 [mkA 9 9 None 0 []; Z0] 9 9 [(0, 5); (10, 8); (20, 9)] [] [row 19 0 0 8; (20, rf)]);
+     ([], Advance 20, Ok 0, mkO 40 [mkA 9 9 None 0 []; Z0] 9 9 [(0, 5); (10, 8); (20, 9)] [] [row 39 0 0 9; (40, rf)]);
+     ([1%N], Delegate 1%N 1%N, Ok 0,
+      mkO 40 [mkA 9 9 None 0 []; mkA 0 0 (Some 1%N) 0 []] 9 9 [(0, 5); (10, 6); (20, 9)] [] [row 39 0 0 9; (40, rf)])]) = 7%N.
+Proof. vm_compute. reflexivity. Qed.
+
+(* an old checkpoint dropped and a back-dated one inserted by the current call *)
+Example C13_monitor_rejects_dropped_and_backdated_checkpoint :
+  mon_index (bad_h, [good_mint;
+     ([], Advance 10, Ok 0, mkO 10 [mkA 5 5 None 0 []; Z0] 5 5 [(0, 5)] [] [row 9 0 0 5; (10, rf)]);
+     ([], Mint 0%N 3, Ok 0, mkO 10 [mkA 8 8 None 0 []; Z0] 8 8 [(0, 5); (10, 8)] [] [row 9 0 0 5; (10, rf)]);
+     ([], Advance 30, Ok 0, mkO 40 [mkA 8 8 None 0 []; Z0] 8 8 [(0, 5); (10, 8)] [] [row 39 0 0 8; (40, rf)]);
+     ([], Mint 0%N 1, Ok 0, mkO 40 [mkA 9 9 None 0 []; Z0] 9 9 [(3, 7); (40, 9)] [] [row 39 0 0 8; (40, rf)])]) = 5%N.
+Proof. vm_compute. reflexivity. Qed.
+
+(* a past row that contradicts the checkpoint list shown in the same observation *)
+Example C13_monitor_rejects_row_contradicting_list :
+  mon_index (bad_h, [good_mint;
+     ([], Advance 10, Ok 0, mkO 10 [mkA 5 5 None 0 []; Z0] 5 5 [(0, 5); (4, 5)] [] [row 9 0 0 5; (10, rf)])]) = 2%N /\
+  mon_index (bad_h,
+    [([], Advance 3, Ok 0, mkO 3 [Z0; Z0] 0 0 [] [] [row 2 0 0 0; (3, rf)]);
+     ([], Mint 0%N 5, Ok 0, mkO 3 [mkA 5 5 None 0 []; Z0] 5 5 [(1, 5)] [] [row 2 0 0 0; (3, rf)])]) = 2%N.
+Proof. vm_compute. split; reflexivity. Qed.
+
+(* malformed observations: no account listed; the clock moves on a non-Advance call / stands still on an
+   Advance; the rows for now-1 and now are missing *)
+Example C13_monitor_rejects_malformed_observations :
+  mon_index (bad_h, [([], Mint 0%N 5, Ok 0, mkO 0 [] 5 0 [] [] [(0, [None])])]) = 1%N /\
+  mon_index (bad_h, [([], Mint 0%N 5, Ok 0, mkO 7 [mkA 5 5 None 0 []; Z0] 5 5 [(7, 5)] [] [row 6 0 0 0; (7, rf)])]) = 1%N /\
+  mon_index (bad_h, [good_mint;
+     ([], Advance 100, Ok 0, mkO 0 [mkA 5 5 None 0 []; Z0] 5 5 [(0, 5)] [] [(0, rf)])]) = 2%N /\
+  mon_index (bad_h, [good_mint;
+     ([], Advance 1, Ok 0, mkO 1 [mkA 5 5 None 0 []; Z0] 5 5 [(0, 5)] [] [])]) = 2%N /\
+  mon_index (bad_h, [good_mint;
+     ([], Advance 1, Ok 0, mkO 1 [mkA 5 5 None 0 []; Z0] 5 5 [(0, 5)] [] [(1, rf)])]) = 2%N.
+Proof. vm_compute. repeat split. Qed.
